@@ -1,5 +1,6 @@
 import Ledger.Driver.Core
 import Ledger.Machine.Allotment
+import Ledger.Machine.Validate
 
 /-! Handler "allot": `ParsePortionSpecific` + `NewAllotment` + `Allocate`. -/
 namespace Ledger.Driver
@@ -28,7 +29,7 @@ def handleAllot : Handler := fun inp out => do
   let amt ← parseInt (← strField inp "amount")
   -- model
   let parsed := portions.map fun s =>
-    if s = "remaining" then Except.ok Portion.remaining else parsePortionSpecific s
+    if s = "remaining" then Except.ok Portion.remaining else parsePortionGo s
   let parseErr := parsed.map fun | .ok _ => false | .error _ => true
   let parsedStr := parsed.map fun | .ok p => portionStr p | .error _ => ""
   let allOk := parseErr.all (!·)
